@@ -33,9 +33,15 @@ package ports
 
 // A reservation succeeds only if it was available on every network, and then it is held on
 // every network; a failed reservation changes nothing.
+// keptOuter(s): every (network, transport, port) entry that existed on entry still exists and
+// still refers to the same set of bound addresses (a reservation never replaces the set).
+//@ define keptOuter(s) = forallkey(d, s.allocatedPorts, implies(old(has(s.allocatedPorts, d)), has(s.allocatedPorts, d) && s.allocatedPorts[d] == old(s.allocatedPorts[d])))
+
 //@ func (*PortManager).reserveSpecificPort props C10
 //@   requires pmOK(s)
 //@   ensures pmOK(s)
+//@   ensures keptOuter(s)
+//@   loop 1 invariant keptOuter(s)
 //@   ensures implies(result, old(forall(j, 0, len(networks), availOn(s, networks[j], transport, addr, port))))
 //@   ensures implies(result, forall(j, 0, len(networks), heldOn(s, networks[j], transport, addr, port)))
 //@   ensures implies(!old(forall(j, 0, len(networks), availOn(s, networks[j], transport, addr, port))), !result)
